@@ -24,6 +24,14 @@ func installFailers(e types.EnvType) {
 	call.CallOverrideFN(e, "fail2!", func() (types.MalType, error) { return nil, hx.ErrSentinel2 })
 	call.CallOverrideFN(e, "panic-err!", func() (types.MalType, error) { panic(hx.ErrSentinel) })
 	call.CallOverrideFN(e, "panic-val!", func(v types.MalType) (types.MalType, error) { panic(v) })
+	// registered as plain Go function values, without the binder (and so without its recover)
+	e.Set(types.Symbol{Val: "raw-panic-runtime!"}, types.Func{Fn: func(context.Context, []types.MalType) (types.MalType, error) {
+		var none []int
+		idx := len(none) + 3
+		return none[idx], nil
+	}})
+	e.Set(types.Symbol{Val: "raw-panic-err!"}, types.Func{Fn: func(context.Context, []types.MalType) (types.MalType, error) { panic(hx.ErrSentinel) }})
+	e.Set(types.Symbol{Val: "raw-fail!"}, types.Func{Fn: func(context.Context, []types.MalType) (types.MalType, error) { return nil, hx.ErrSentinel }})
 }
 
 // progText renders top-level forms as one (do …) text, one form per line.
